@@ -980,13 +980,6 @@ fn main() {
     );
     fcases.sort_by_key(|(_, (c, _))| kof(c).unwrap());
     tcases.sort_by_key(|(_, (c, _))| kof(c).unwrap());
-    // (ordered by circuit size, so that a wall-budget cut removes the heaviest tail only)
-    cx.run_cases("faults", &fcases, |(c, idxs)| {
-        let mut out = CaseOut::batch();
-        vgad::explore_faults(c, kof(c).unwrap(), idxs, if c.cv == Cv::Jub { &faults_native } else { &faults_foreign }, &mut out);
-        out
-    });
-
     // ---- phase 2a': region-local alternative-witness search (vgad::laws; thorough tier): one case
     // per (curve, operation) with k <= 12 — limb range checks of the foreign chips, byte and
     // window tables — last 32 regions of the circuit
@@ -1004,6 +997,13 @@ fn main() {
             out
         });
     }
+
+    // (ordered by circuit size, so that a wall-budget cut removes the heaviest tail only)
+    cx.run_cases("faults", &fcases, |(c, idxs)| {
+        let mut out = CaseOut::batch();
+        vgad::explore_faults(c, kof(c).unwrap(), idxs, if c.cv == Cv::Jub { &faults_native } else { &faults_foreign }, &mut out);
+        out
+    });
 
     // ---- phase 2b: 1 deviation, table-only mode (Jubjub: the witness code of the native chip
     // panics on most propagated faults, so the gates themselves are probed here)
